@@ -106,7 +106,7 @@ def run(tier='quick', seed=0, only=None, verbose=False):
         'pyrates.frontend.dict.from_circuit + fileio.yaml.dump_to_yaml (concrete)',
         'pyrates.backend.parser.replace (CrossHair, symbolic strings)',
         'pyrates.frontend.template.operator._update_equation (CrossHair, symbolic strings)'],
-        bounds=dict(frontends='python, yaml, to_yaml->from_yaml, base: chains of length 1-2',
+        bounds=dict(frontends='python, yaml, to_yaml->from_yaml, base: chains of length 1-2, a file path written twice (other values first)',
                     crosshair='|eq| <= 4 (quick) / 5 (thorough), |term| <= 2, alphabet {r,x,_,space,+,=}'),
         stubs=['numpy library model'],
         assumptions=['reals for floats', 'equation edits are compared with token-level edits of the spec'])
@@ -126,6 +126,12 @@ def run(tier='quick', seed=0, only=None, verbose=False):
             for vec in vecs:
                 jobs.append(dict(key=f"{key}|{builder}|vec={vec}", spec=spec, vectorize=vec, backend='default',
                                  builder=builder))
+    # the same file path written twice with different contents (decoy first), loaded after each write
+    for key, spec in (progs[:3] + families.fam_hierarchy()[:1] + families.fam_partial_overrides()[:2]
+                      if tier == 'quick' else progs[::3]):
+        for builder in ('yaml_rewritten', 'roundtrip_rewritten'):
+            jobs.append(dict(key=f"{key}|{builder}|vec=False", spec=spec, vectorize=False, backend='default',
+                             builder=builder))
     for key, spec, derived in families.fam_derived():
         for vec in (True, False):
             jobs.append(dict(key=f"{key}|derived|vec={vec}", spec=spec, vectorize=vec, backend='default',
